@@ -62,17 +62,33 @@ Record state := mkState {
   tick : bool;             (* a tick event of the driver is in the event queue *)
   tosend : list nat;       (* Driver.requestsToSend: requests built by processNewCommand, sent by the next Ticks *)
   gpu : list nat;          (* queues with a request being served: one pending event each *)
-  resp : list nat;         (* responses waiting in the driver's GPU port *)
+  resp : list nat;         (* responses waiting in the driver's GPU port (by issuing queue) *)
+  next_req : N;            (* sim.GetIDGenerator(): next fresh request ID *)
   mw0 : bool;              (* defaultMemoryCopyMiddleware.cyclesLeft is still its zero value: the
                               middleware's first Tick() reports progress (quirk of builder.go) *)
   crashed : bool;          (* a Go panic was reached *)
   g_log : list (nat * nat * N)  (* ghost: (thread, queue, id) of every Enqueue, in order *)
 }.
 #[export] Instance eta_state : Settable _ :=
-  settable! mkState <apps; queues; ra; eng; ewait; edone; pause; erunning; rerun; tick; tosend; gpu; resp; mw0; crashed; g_log>.
+  settable! mkState <apps; queues; ra; eng; ewait; edone; pause; erunning; rerun; tick; tosend; gpu; resp; next_req; mw0; crashed; g_log>.
 
-Definition init (nq : nat) (progs : list (list op)) : state :=
-  mkState (map init_app progs) (repeat empty_queue nq) RTop None 0 0 false false false false [] [] [] true false [].
+(** queues are listed context by context; [cs] gives the context of each *)
+Definition init_ctx (cs : list nat) (progs : list (list op)) : state :=
+  mkState (map init_app progs) (map empty_queue_in cs) RTop None 0 0 false false false false [] [] [] 1%N true false [].
+
+(** the harness' layout: one context for one queue, otherwise two contexts,
+    the first half of the queues in the first one *)
+Definition default_ctxs (nq : nat) : list nat :=
+  map (fun i => if Nat.leb nq 1 then 0 else (i * 2) / nq) (seq 0 nq).
+Definition init (nq : nat) (progs : list (list op)) : state := init_ctx (default_ctxs nq) progs.
+
+(** the response that was sent for queue q's request carries that request's ID;
+    processLaunchKernelReturn looks the command up again with findCommandByReqID *)
+Definition match_response (s : state) (q : nat) : option nat :=
+  match nth_error (queues s) q with
+  | Some qq => find_req (queues s) (q_req qq) 0
+  | None => None
+  end.
 
 Inductive tstep :=
 | TApp (t : nat)     (* application thread t *)
@@ -184,9 +200,12 @@ Definition eng_step (c : cfg) (s : state) : option state :=
     | ERet mp =>
       match resp s with
       | [] => Some (set_eng (eq_or_end s 0 mp) s)
-      | q :: r =>
-        match nth_error (queues s) q with
+      | q0 :: r =>
+        match match_response s q0 with
         | None => Some (s <| crashed := true |>)      (* panic("cannot find command") *)
+        | Some q =>
+        match nth_error (queues s) q with
+        | None => Some (s <| crashed := true |>)
         | Some qq =>
           match q_cmds qq with
           | cm :: rest =>
@@ -198,6 +217,7 @@ Definition eng_step (c : cfg) (s : state) : option state :=
             else Some (s <| crashed := true |>)
           | [] => Some (s <| crashed := true |>)
           end
+        end
         end
       end
     | ERetNotify q =>
@@ -222,8 +242,9 @@ Definition eng_step (c : cfg) (s : state) : option state :=
                                                     <| q_done := q_done qq ++ [c_id cm] |>) (queues s) |>))
                | Async =>
                  Some (set_eng (eq_or_end s (S i) true)
-                   (s <| queues := upd i (fun qq => qq <| q_running := true |>
+                   (s <| queues := upd i (fun qq => qq <| q_running := true |> <| q_req := next_req s |>
                                                     <| q_start := q_start qq ++ [c_id cm] |>) (queues s) |>
+                      <| next_req := N.succ (next_req s) |>
                       <| tosend := tosend s ++ [i] |>))
                end
         end
